@@ -123,6 +123,17 @@ def shp(s):
     return "shape[" + ",".join(str(x) for x in s) + "]"
 
 
+def class_tree(op, depth=0):
+    """Class names of an operator and of the operators among its constructor arguments."""
+    from linear_operator.operators import LinearOperator
+    names = [type(op).__name__]
+    if depth < 6:
+        for a in list(getattr(op, "_args", ())) + list(getattr(op, "_kwargs", {}).values()):
+            if isinstance(a, LinearOperator):
+                names += class_tree(a, depth + 1)
+    return names
+
+
 def same_terms(model, impl, has_rhs, lg):
     """Requested terms must agree exactly; for a term that was not requested only the kind of placeholder
     (none / empty / some tensor) is compared — its shape is not part of the documented interface."""
@@ -187,6 +198,8 @@ def slq_expected(A, probes, P, budget):
     n, m = A.shape[-1], probes.shape[-1]
     while probes.dim() > len(batch) + 2 and probes.shape[0] == 1:
         probes = probes[0]
+    if probes.dim() > len(batch) + 2 and probes.numel() == int(torch.Size(batch).numel()) * n * m:
+        probes = probes.reshape(*batch, n, m)  # size-1 batch dims of a wrapped operator
     Am = members(A, len(batch)).numpy()
     Zm = members(probes.double().expand(*batch, n, m), len(batch)).numpy()
     Pm = members(P.double().expand(*batch, n, n), len(batch)).numpy() if P is not None else [None] * len(Am)
@@ -357,6 +370,124 @@ def extra_instances(rng, dtype, batch, n):
     return out
 
 
+# ----------------------------------------------------------------------------- expression-built instances
+
+
+def expr_instances(rng, dtype, batch, n):
+    """Operators produced by the library's OWN composition (`a + b`, `(a + b) + c`, `a * c`, add_jitter, add_diagonal,
+    slices, repeat / expand / unsqueeze, cat) — which class comes out, and with how many summands, is decided by the
+    dispatch code; the dense value is computed independently from the defining tensors."""
+    import linear_operator
+    from linear_operator.operators import (ConstantDiagLinearOperator, DenseLinearOperator, DiagLinearOperator, KroneckerProductLinearOperator,
+                                           LowRankRootLinearOperator, BlockDiagLinearOperator, ToeplitzLinearOperator)
+    Inst, ri, psd_int, kron = catalogue.Inst, catalogue.ri, catalogue.psd_int, catalogue.kron
+    N = 2 * n
+    eye = lambda k: torch.eye(k, dtype=dtype)
+    A1, B1, A2, B2, A3, B3, A4, B4 = [psd_int(rng, batch, k, dtype) for k in (2, n, 2, n, 2, n, 2, n)]
+    D = psd_int(rng, batch, N, dtype)
+    D2 = psd_int(rng, batch, N, dtype)
+    d1, d2 = ri(rng, (*batch, N), 1, 3, dtype), ri(rng, (*batch, N), 1, 3, dtype)
+    c1, c2 = ri(rng, (*batch, 1), 1, 3, dtype), ri(rng, (*batch, 1), 1, 3, dtype)
+    Rr, Rr2 = ri(rng, (*batch, N, 2), dtype=dtype), ri(rng, (*batch, N, 1), dtype=dtype)
+    kc = ri(rng, batch, 2, 3, dtype)
+    K = lambda a, b: KroneckerProductLinearOperator(a, b)
+    k1, k2, k3, k4 = kron(A1, B1), kron(A2, B2), kron(A3, B3), kron(A4, B4)
+    de = torch.diag_embed
+    ce = lambda c: c.unsqueeze(-1) * eye(N)
+    out = []
+
+    def add(name, tensors, build, dense, tags=()):
+        def make(c, tensors=tensors, build=build, dense=dense):
+            ts = [c(t) for t in tensors]
+            return build(*ts), dense, ts
+        try:
+            it = Inst("expr:" + name, make, True, tags=tags)
+        except Exception as e:  # the composition itself fails: reported by the caller
+            out.append(("ctor-error", "expr:" + name, f"{type(e).__name__}: {str(e)[:160]}"))
+            return
+        out.append(it)
+
+    # --- Kronecker sums: 2, 3, 4 summands, plus tensors / dense operators / diagonals
+    add("Kron+Kron", [A1, B1, A2, B2], lambda a, b, e, f: K(a, b) + K(e, f), k1 + k2)
+    add("(Kron+Kron)+Kron", [A1, B1, A2, B2, A3, B3], lambda a, b, e, f, g, h: (K(a, b) + K(e, f)) + K(g, h), k1 + k2 + k3)
+    add("Kron+(Kron+Kron)", [A1, B1, A2, B2, A3, B3], lambda a, b, e, f, g, h: K(a, b) + (K(e, f) + K(g, h)), k1 + k2 + k3)
+    add("(Kron+Kron)+(Kron+Kron)", [A1, B1, A2, B2, A3, B3, A4, B4], lambda a, b, e, f, g, h, i, j: (K(a, b) + K(e, f)) + (K(g, h) + K(i, j)), k1 + k2 + k3 + k4)
+    add("(Kron+Kron)+tensor", [A1, B1, A2, B2, D], lambda a, b, e, f, t: (K(a, b) + K(e, f)) + t, k1 + k2 + D)
+    add("(Kron+Kron)+Dense", [A1, B1, A2, B2, D], lambda a, b, e, f, t: (K(a, b) + K(e, f)) + DenseLinearOperator(t), k1 + k2 + D)
+    add("(Kron+Kron)+Diag", [A1, B1, A2, B2, d1], lambda a, b, e, f, t: (K(a, b) + K(e, f)) + DiagLinearOperator(t), k1 + k2 + de(d1))
+    add("(Kron+Kron).add_jitter", [A1, B1, A2, B2], lambda a, b, e, f: (K(a, b) + K(e, f)).add_jitter(1.0), k1 + k2 + eye(N))
+    add("(Kron+Kron)*2", [A1, B1, A2, B2], lambda a, b, e, f: (K(a, b) + K(e, f)) * 2.0, 2 * (k1 + k2))
+    # --- Kronecker + diagonal: re-added diagonals, chained jitters, third summands
+    add("Kron+Diag", [A1, B1, d1], lambda a, b, t: K(a, b) + DiagLinearOperator(t), k1 + de(d1))
+    add("Diag+Kron", [A1, B1, d1], lambda a, b, t: DiagLinearOperator(t) + K(a, b), k1 + de(d1))
+    add("(Kron+Diag)+Diag", [A1, B1, d1, d2], lambda a, b, t, u: (K(a, b) + DiagLinearOperator(t)) + DiagLinearOperator(u), k1 + de(d1) + de(d2))
+    add("(Kron+Const)+Const", [A1, B1, c1, c2], lambda a, b, t, u: (K(a, b) + ConstantDiagLinearOperator(t, diag_shape=N)) + ConstantDiagLinearOperator(u, diag_shape=N), k1 + ce(c1) + ce(c2))
+    add("(Kron+Const)+Diag", [A1, B1, c1, d1], lambda a, b, t, u: (K(a, b) + ConstantDiagLinearOperator(t, diag_shape=N)) + DiagLinearOperator(u), k1 + ce(c1) + de(d1))
+    add("(Kron+Diag)+Kron", [A1, B1, d1, A2, B2], lambda a, b, t, e, f: (K(a, b) + DiagLinearOperator(t)) + K(e, f), k1 + de(d1) + k2)
+    add("(Kron+Const)+Kron", [A1, B1, c1, A2, B2], lambda a, b, t, e, f: (K(a, b) + ConstantDiagLinearOperator(t, diag_shape=N)) + K(e, f), k1 + ce(c1) + k2)
+    add("(Kron+Diag)+tensor", [A1, B1, d1, D], lambda a, b, t, u: (K(a, b) + DiagLinearOperator(t)) + u, k1 + de(d1) + D)
+    add("Kron.add_jitter.add_jitter", [A1, B1], lambda a, b: K(a, b).add_jitter(1.0).add_jitter(2.0), k1 + 3 * eye(N))
+    add("Kron.add_diagonal", [A1, B1, d1], lambda a, b, t: K(a, b).add_diagonal(t), k1 + de(d1))
+    add("(Kron+Diag).add_jitter", [A1, B1, d1], lambda a, b, t: (K(a, b) + DiagLinearOperator(t)).add_jitter(1.0), k1 + de(d1) + eye(N))
+    add("(Kron+Const)*2", [A1, B1, c1], lambda a, b, t: (K(a, b) + ConstantDiagLinearOperator(t, diag_shape=N)) * 2.0, 2 * (k1 + ce(c1)))
+    add("Kron*2", [A1, B1], lambda a, b: K(a, b) * 2.0, 2 * k1)
+    add("Kron*c", [A1, B1, kc], lambda a, b, k: K(a, b) * k.unsqueeze(-1).unsqueeze(-1) if k.dim() else K(a, b) * k, k1 * kc.unsqueeze(-1).unsqueeze(-1))
+    add("Kron+Kron[3 factors]", [A1, B1, A2, A3, B3, A4], lambda a, b, e, g, h, i: KroneckerProductLinearOperator(a, b, e) + KroneckerProductLinearOperator(g, h, i),
+        kron(kron(A1, B1), A2) + kron(kron(A3, B3), A4))
+    # --- low-rank root + diagonal
+    lr, lr2 = Rr @ Rr.mT, Rr2 @ Rr2.mT
+    LRR = LowRankRootLinearOperator
+    add("LRR+Diag", [Rr, d1], lambda r, t: LRR(r) + DiagLinearOperator(t), lr + de(d1))
+    add("Diag+LRR", [Rr, d1], lambda r, t: DiagLinearOperator(t) + LRR(r), lr + de(d1))
+    add("(LRR+Diag)+Diag", [Rr, d1, d2], lambda r, t, u: (LRR(r) + DiagLinearOperator(t)) + DiagLinearOperator(u), lr + de(d1) + de(d2))
+    add("(LRR+Diag)+Const", [Rr, d1, c1], lambda r, t, u: (LRR(r) + DiagLinearOperator(t)) + ConstantDiagLinearOperator(u, diag_shape=N), lr + de(d1) + ce(c1))
+    add("(LRR+Diag)+LRR", [Rr, d1, Rr2], lambda r, t, q: (LRR(r) + DiagLinearOperator(t)) + LRR(q), lr + de(d1) + lr2)
+    add("(LRR+Diag)+Dense", [Rr, d1, D], lambda r, t, u: (LRR(r) + DiagLinearOperator(t)) + DenseLinearOperator(u), lr + de(d1) + D)
+    add("(LRR+Diag)+tensor", [Rr, d1, D], lambda r, t, u: (LRR(r) + DiagLinearOperator(t)) + u, lr + de(d1) + D)
+    add("(LRR+Diag).add_jitter.add_jitter", [Rr, d1], lambda r, t: (LRR(r) + DiagLinearOperator(t)).add_jitter(1.0).add_jitter(1.0), lr + de(d1) + 2 * eye(N))
+    add("LRR.add_diagonal", [Rr, d1], lambda r, t: LRR(r).add_diagonal(t), lr + de(d1))
+    add("(LRR+Diag)*2", [Rr, d1], lambda r, t: (LRR(r) + DiagLinearOperator(t)) * 2.0, 2 * (lr + de(d1)))
+    # --- dense / Toeplitz + diagonal
+    DL = DenseLinearOperator
+    add("Dense+Diag", [D, d1], lambda a, t: DL(a) + DiagLinearOperator(t), D + de(d1))
+    add("(Dense+Diag)+Diag", [D, d1, d2], lambda a, t, u: (DL(a) + DiagLinearOperator(t)) + DiagLinearOperator(u), D + de(d1) + de(d2))
+    add("(Dense+Diag)+Dense", [D, d1, D2], lambda a, t, u: (DL(a) + DiagLinearOperator(t)) + DL(u), D + de(d1) + D2)
+    add("(Dense+Const)+Const", [D, c1, c2], lambda a, t, u: (DL(a) + ConstantDiagLinearOperator(t, diag_shape=N)) + ConstantDiagLinearOperator(u, diag_shape=N), D + ce(c1) + ce(c2))
+    add("Dense.add_jitter.add_jitter", [D], lambda a: DL(a).add_jitter(1.0).add_jitter(2.0), D + 3 * eye(N))
+    add("Dense.add_diagonal", [D, d1], lambda a, t: DL(a).add_diagonal(t), D + de(d1))
+    add("(Dense+Diag)*2", [D, d1], lambda a, t: (DL(a) + DiagLinearOperator(t)) * 2.0, 2 * (D + de(d1)))
+    col = ri(rng, (*batch, N), 0, 2, dtype)
+    col[..., 0] = col[..., 0] + 2 * N
+    add("Toeplitz.add_jitter", [col], lambda t: ToeplitzLinearOperator(t).add_jitter(1.0), catalogue.toeplitz_dense(col) + eye(N))
+    add("Toeplitz+Diag", [col, d1], lambda t, u: ToeplitzLinearOperator(t) + DiagLinearOperator(u), catalogue.toeplitz_dense(col) + de(d1))
+    add("Dense+Dense", [D, D2], lambda a, b: DL(a) + DL(b), D + D2)
+    # --- slices (principal sub-matrices), batch reshapes
+    k = N - 2
+    add("Dense[:k,:k]", [D], lambda a: DL(a)[..., :k, :k], D[..., :k, :k])
+    add("(Dense+Diag)[1:,1:]", [D, d1], lambda a, t: (DL(a) + DiagLinearOperator(t))[..., 1:, 1:], (D + de(d1))[..., 1:, 1:])
+    add("Kron[:k,:k]", [A1, B1], lambda a, b: K(a, b)[..., :k, :k], k1[..., :k, :k])
+    add("(Kron+Kron)[:k,:k]", [A1, B1, A2, B2], lambda a, b, e, f: (K(a, b) + K(e, f))[..., :k, :k], (k1 + k2)[..., :k, :k])
+    add("(Kron+Diag)[:k,:k]", [A1, B1, d1], lambda a, b, t: (K(a, b) + DiagLinearOperator(t))[..., :k, :k], (k1 + de(d1))[..., :k, :k])
+    add("(LRR+Diag)[:k,:k]", [Rr, d1], lambda r, t: (LRR(r) + DiagLinearOperator(t))[..., :k, :k], (lr + de(d1))[..., :k, :k])
+    Bl = psd_int(rng, (*batch, 2), n, dtype)
+    add("BlockDiag[:n,:n]", [Bl], lambda a: BlockDiagLinearOperator(DL(a))[..., :n, :n], catalogue.block_diag_dense(Bl)[..., :n, :n])
+    if batch:
+        add("(Kron+Kron)[0]", [A1, B1, A2, B2], lambda a, b, e, f: (K(a, b) + K(e, f))[0], (k1 + k2)[0])
+        add("(Kron+Diag)[0]", [A1, B1, d1], lambda a, b, t: (K(a, b) + DiagLinearOperator(t))[0], (k1 + de(d1))[0])
+        add("cat[batch]((Kron+Diag),(Dense+Diag))", [A1, B1, d1, D, d2],
+            lambda a, b, t, u, v: linear_operator.operators.cat([K(a, b) + DiagLinearOperator(t), DL(u) + DiagLinearOperator(v)], dim=0),
+            torch.cat([k1 + de(d1), D + de(d2)], 0))
+    one = (1,) * len(batch)
+    for nm, mk, dn in (("(Kron+Kron)", lambda ts: K(ts[0], ts[1]) + K(ts[2], ts[3]), k1 + k2),
+                       ("(Kron+Diag)", lambda ts: K(ts[0], ts[1]) + DiagLinearOperator(ts[4]), k1 + de(d1)),
+                       ("(LRR+Diag)", lambda ts: LRR(ts[5]) + DiagLinearOperator(ts[4]), lr + de(d1))):
+        tens = [A1, B1, A2, B2, d1, Rr]
+        add(nm + ".repeat(2)", tens, lambda *ts, mk=mk: mk(ts).repeat(2, *one, 1, 1), dn.repeat(2, *one, 1, 1))
+        add(nm + ".unsqueeze(0)", tens, lambda *ts, mk=mk: mk(ts).unsqueeze(0), dn.unsqueeze(0))
+        add(nm + ".expand(3)", tens, lambda *ts, mk=mk: mk(ts).expand(3, *dn.shape), dn.expand(3, *dn.shape).contiguous())
+    return out
+
+
 # ----------------------------------------------------------------------------- configurations
 
 CONFIGS = {
@@ -477,6 +608,14 @@ class State:
                                     continue
                                 w.psd = True
                                 insts.append(w)
+                    if n == 3 and dtype == torch.float64 and batch in ((), (2,)):
+                        for it in expr_instances(rng, dtype, batch, n):
+                            if isinstance(it, tuple):
+                                cellc = f"C05/{it[1]}[b={batch}|n={n}]/compose"
+                                chk.case(cellc)
+                                chk.violation(cellc + "/exception", f"building the operator by composition raised {it[2]}", {"cell": cellc, "seed": chk.seed, "tier": chk.tier})
+                            else:
+                                insts.append(it)
                     for it in insts:
                         self.instance(it, dtype, batch, n)
 
@@ -572,7 +711,8 @@ class State:
             if stoch != want_stoch and not (stoch and not lg):
                 chk.corr_break(cell + "/path", f"model path {path} expects stochastic={want_stoch}, implementation stochastic={stoch}", payload)
             # ---- tolerances
-            lanczos_root = (cfg.get("max_chol") == 0 or cfg.get("max_chol") == "n-1") and ("SumKronecker" in it.name or "Mul" in it.name)
+            lanczos_root = (cfg.get("max_chol") == 0 or cfg.get("max_chol") == "n-1") and any(
+                k in ("SumKroneckerLinearOperator", "MulLinearOperator") for k in class_tree(op))
             tol_det = 2e-3 if f32 else (1e-3 if lanczos_root else 1e-8)
             cg_based = (cfg.get("max_chol") in (0, "n-1")) and cfg.get("log_prob") is not False
             tol_iq = 5e-3 if f32 else (1e-3 if lanczos_root else (1e-5 if cg_based else 1e-8))
